@@ -118,6 +118,13 @@ def run(ctx):
             name = names[0] if names else "?"
             seen.add(name)
             calls = [e for e in p.eff if e[0] == 'call' and e[2] and 'read_shape_content' in e[2]]
+            guard = [t for t, v in p.cons if t[0] == 'discr' and t[1][0] == 'checked' and v == 0
+                     and not absint.contains(t[1], code_term)]
+            if guard and is_agg(p.ret, None, 'Err') and not calls:
+                # a checked size computation failed: an error that does not depend on the type code and decodes nothing
+                ctx.ob("C06.dispatch", "size guard (%s)" % name, True, "%s overflows -> error, nothing decoded" %
+                       absint.term_str(guard[0][1]), site=ctx.site_of(F, f["def"]), trivial=True)
+                continue
             if not is_agg(p.ret, None, 'Ok'):
                 ctx.ob("C06.dispatch", "arm %s" % name, False, "arm returns %s" % absint.term_str(p.ret),
                        site=ctx.site_of(F, f["def"]))
@@ -190,6 +197,13 @@ def run(ctx):
                 ctx.ob("C06.typed", "match path (%s)" % name, ok and is_agg(p.ret) is not None,
                        "content reader reached under %s" % [(absint.term_str(t), v) for t, v in eqs],
                        site=ctx.site_of(F, f["def"]), key="C06.typed|match")
+            elif any(t[0] == 'discr' and t[1][0] == 'checked' and v == 0 and not absint.contains(t[1], code_term)
+                     for t, v in p.cons) and is_agg(p.ret, None, 'Err') and \
+                    any(t[0] == 'bin' and t[1] in ('Eq', 'Ne') and ((v != 0) == (t[1] == 'Eq'))
+                        for t, v in ((t, 1 if v == ('not', (0,)) else v) for t, v in p.cons) if isinstance(v, int)):
+                # the types match and a checked size computation failed: an error, nothing decoded
+                ctx.ob("C06.typed", "size guard (%s)" % name, True, "types equal, size computation overflows -> error",
+                       site=ctx.site_of(F, f["def"]), trivial=True)
             else:
                 n_mis += 1
                 err = agg_field(p.ret, '0') if is_agg(p.ret, None, 'Err') else None
